@@ -120,11 +120,17 @@ module Wrap = struct
     | x :: a', y :: b' -> x = y && args_match a' b'
     | _, _ -> false
 
+  (* AW as the argument of File.Read (the inner Read of the ReadFile composite, whose buffer length the
+     model does not compute) stands for SOME NON-EMPTY buffer: a recorded Read with length <= 0 does not match *)
+  let nonempty_read (m : meth) (a : arg list) (b : arg list) = match m, a, b with
+    | MF F_Read, [AW], [AI z] -> int_of_z z > 0
+    | _ -> true
+
   let base_step (s : bstate) (b : nat) (m : meth) (a : arg list) : ans * bstate =
     if is_getter m then
       (match s.direct with Some d -> (d, s) | None -> ({ a_val = VUnit; a_err = Some (EStuck (n_of_int 5)); a_obj = None }, { s with bad = true }))
     else match s.script with
-      | c :: rest when c.bo = int_of_nat b && c.bm = m && args_match a c.ba -> (c.bans, { s with script = rest })
+      | c :: rest when c.bo = int_of_nat b && c.bm = m && args_match a c.ba && nonempty_read m a c.ba -> (c.bans, { s with script = rest })
       | _ -> ({ a_val = VUnit; a_err = Some (EStuck (n_of_int 6)); a_obj = None }, { s with script = []; bad = true })
 
   let parse_bcall (s : string) : bcall =
